@@ -36,7 +36,8 @@ import struct
 
 import numpy as np
 
-REC = np.dtype([('e', '<u8'), ('v', '<u8'), ('x', '<u8'), ('i', '<u4')])
+REC = np.dtype([('e', '<u8'), ('v', '<u8'), ('x', '<u8'), ('i', '<u4'),
+                ('n', 'u1')])
 _NOENC = 0
 
 
@@ -186,7 +187,8 @@ def run_chunk(sub, dom, chunk):
             counters[t] = counters.get(t, 0) + 1
         enc = res['enc']
         rec[k] = (h64(enc) if enc is not None else _NOENC,
-                  h64(res['val']), h64(res.get('val_exact', res['val'])), i)
+                  h64(res['val']), h64(res.get('val_exact', res['val'])), i,
+                  1 if res['nontrivial'] else 0)
         for clause, site, detail in res['viol']:
             key = (clause, site)
             cur = viol.get(key)
@@ -225,13 +227,16 @@ def load_records(scratch, sub_name):
     return np.concatenate(bufs)
 
 
-def find_pairs(rec, max_pairs=500):
+def find_pairs(rec, max_pairs=50000):
     """Return (collisions, splits, stats): index pairs (i, j).
 
     collision: same e, different v.   split: same v, different e.
     One representative pair per offending e (resp. v) group.
     """
     stats = {'records': int(len(rec)),
+             'distinct_inputs': int(len(np.unique(rec['x']))),
+             'distinct_nontrivial_inputs':
+             int(len(np.unique(rec['x'][rec['n'] == 1]))),
              'distinct_encodings': 0, 'distinct_values': 0,
              'collision_groups': 0, 'split_groups': 0}
     rec = rec[rec['e'] != _NOENC]
@@ -247,16 +252,15 @@ def find_pairs(rec, max_pairs=500):
         same = r[primary][1:] == r[primary][:-1]
         diff = r[secondary][1:] != r[secondary][:-1]
         hits = np.nonzero(same & diff)[0]
-        pairs = []
-        seen = set()
+        pairs = {}
         for h in hits:
             g = int(r[primary][h])
-            if g in seen:
-                continue
-            seen.add(g)
-            if len(pairs) < max_pairs:
-                pairs.append((int(r['i'][h]), int(r['i'][h + 1])))
-        return pairs, len(seen)
+            pair = tuple(sorted((int(r['i'][h]), int(r['i'][h + 1]))))
+            if g not in pairs or pair[::-1] < pairs[g][::-1]:
+                pairs[g] = pair
+        # simplest (lowest index) pairs first; one pair per offending group
+        ordered = sorted(pairs.values(), key=lambda p: (p[1], p[0]))
+        return ordered[:max_pairs], len(pairs)
 
     coll, ncoll = groups('e', 'v')
     split, nsplit = groups('x', 'e')
